@@ -172,8 +172,9 @@ def names_input(o, lines):
     ds = o.diag_statement
     if ds is None:
         return False
-    if o.exc == "ParseError":
-        return ds.rstrip("\n") in [l.rstrip("\n") for l in lines] or ds in lines
+    # either shape names a statement, whichever diagnostic class carries it: an input line verbatim, or a printable listing line
+    if ds.rstrip("\n") in [l.rstrip("\n") for l in lines] or ds in lines:
+        return True
     m = re.match(r"^\$[0-9A-F]* .{10} +(\S*) +(\S+) (.*?) *; ", ds)
     if not m:
         # listing line with empty label: fields are right-justified; fall back to token search
